@@ -556,6 +556,12 @@ def opFuncSimple (db : Db) : OpFunc
     | .error e => .error e
     | .ok q => if b = 0 then .error .other else .ok (q, ((a / b).floor : Int))
 
+/-- an `operation_func` that keeps track of sizes only: every pair gives the number 0 in the empty
+quantity.  `doOperation` does with it what it does with the real one — length check, pairing, container of
+the result, final constructor — so it predicts class, dimension, length and container of a result whose
+quantity is derived (array * array, array / array, number / array: numbers and quantity are engine `Alg`'s) -/
+def opFuncShape : OpFunc := fun _ _ _ _ _ => .ok (.empty, 0)
+
 /-! ### Python indexing -/
 
 /-- position meant by a Python index into a sequence of length `n` -/
@@ -577,6 +583,62 @@ def pySet (xs : List Rat) (i : Int) (v : Rat) : Except ErrKind (List Rat) :=
   match normIndex xs.length i with
   | none => .error .index
   | some j => .ok (xs.set j v)
+
+/-- `seq[index]` for a sequence of anything (numbers, points) -/
+def pyIndex {α : Type} (xs : List α) (i : Int) : Except ErrKind α :=
+  match normIndex xs.length i with
+  | none => .error .index
+  | some j =>
+    match xs[j]? with
+    | some x => .ok x
+    | none => .error .index
+
+/-- a Python `slice(start, stop, step)`; each part may be `None` -/
+structure PySlice where
+  start : Option Int
+  stop : Option Int
+  step : Option Int
+deriving DecidableEq, Repr
+
+/-- one bound of `slice.indices(len)` (`PySlice_Unpack` + `PySlice_AdjustIndices`): `None` is the end the
+walk starts from / runs to; a negative bound counts from the end; everything is clamped to
+`[0, len]` for a positive step and to `[-1, len - 1]` for a negative one -/
+def sliceBound (len step : Int) (b : Option Int) (isStart : Bool) : Int :=
+  let lower : Int := if step < 0 then -1 else 0
+  let upper : Int := if step < 0 then len - 1 else len
+  match b with
+  | none => if isStart then (if step < 0 then upper else lower) else (if step < 0 then lower else upper)
+  | some v =>
+    if v < 0 then (if v + len < lower then lower else v + len)
+    else (if upper < v then upper else v)
+
+/-- the positions a slice visits: from `cur` in steps of `step` while `stop` is not reached (`fuel`
+bounds the walk; `len` is enough because the positions are distinct and within the sequence) -/
+def sliceIdx (step : Int) : Nat → Int → Int → List Int
+  | 0, _, _ => []
+  | fuel + 1, cur, stop =>
+    if (if step < 0 then stop < cur else cur < stop) then cur :: sliceIdx step fuel (cur + step) stop
+    else []
+
+/-- `range(*slice.indices(len))`; a zero step is `ValueError` -/
+def sliceIndices (len : Nat) (s : PySlice) : Except ErrKind (List Int) :=
+  let step := s.step.getD 1
+  if step = 0 then .error .value else
+  .ok (sliceIdx step len (sliceBound len step s.start true) (sliceBound len step s.stop false))
+
+/-- the element at a position computed by `sliceIndices` (a position outside the sequence would be an
+`IndexError`; `slice_in_range` shows there is none) -/
+def atPos {α : Type} (xs : List α) (i : Int) : Except ErrKind α :=
+  if i < 0 then .error .index else
+  match xs[i.toNat]? with
+  | some x => .ok x
+  | none => .error .index
+
+/-- `seq[start:stop:step]` -/
+def pySlice {α : Type} (xs : List α) (s : PySlice) : Except ErrKind (List α) :=
+  match sliceIndices xs.length s with
+  | .error e => .error e
+  | .ok idx => mapE (atPos xs) idx
 
 /-! ### `ChangingIndex`, `IndexAsScalar` -/
 
@@ -660,29 +722,102 @@ deriving DecidableEq, Repr
 inductive ReadOnlyAttr | dimension | values | unit | category | quantityType
 deriving DecidableEq, Repr
 
+/-- keywords a caller can add to `CreateCopy(values, unit, category, **kwargs)` -/
+inductive ExtraKw
+  | dimension        -- collides with the `dimension=self._dimension` FixedArray.CreateCopy adds itself: `TypeError`
+  | value            -- collides with the `value=values` Array.CreateCopy passes on: `TypeError`
+  | unitDatabase     -- reaches the internal constructor, which ignores it
+deriving DecidableEq, Repr
+
+/-- what a FixedArray is compared with by `==` -/
+inductive EqOther
+  | store (idx : Nat)                              -- another array of the store
+  | foreign                                        -- anything that is not a FixedArray (an Array, a number, …)
+deriving DecidableEq, Repr
+
 inductive Op
-  | copy                                           -- `copy.copy`, `copy.deepcopy`, `Copy()`: the object itself
+  | copy                                           -- `copy.copy`, `copy.deepcopy`, `Copy()`, `CreateCopyInstance()`: the object itself
   | createCopy (values : Option ValArg) (unit category : Option Sym)
   | pickle
   | arith (op : AOp) (rhs : Rhs)
   | changingIndex (index : Int) (value : CIValue) (useValueUnit : Bool)
   | indexAsScalar (index : Int) (quantity : Option Qty)
   | assign (attr : ReadOnlyAttr)                   -- `array.<attr> = anything`: there is no mutator
+  | createCopyKw (values : Option ValArg) (unit category : Option Sym) (extra : ExtraKw)
+  | len                                            -- `len(array)`
+  | iter                                           -- `list(iter(array))`
+  | getItem (index : Int)                          -- `array[index]`
+  | getSlice (s : PySlice)                         -- `array[start:stop:step]`
+  | checkValues (values : ValArg) (dimension : Option Int)   -- the public `CheckValues(values, dimension=None)`
+  | eq (other : EqOther)                           -- `array == other`
 deriving DecidableEq, Repr
 
 inductive Cmd
   | make (r : Route)
   | op (src : Nat) (o : Op)
+  /-- the classmethod `Array.FromScalars` called on a FixedArray class -/
+  | fromScalars (cls : ClsAttr) (scalars : List Scalar) (unit category : Option Sym)
 deriving DecidableEq, Repr
 
 inductive Out
   | obj (o : Obj)
   | scalar (s : Scalar)
+  | int (n : Int)
+  | num (x : Rat)
+  | vals (v : Vals)
+  | bool (b : Bool)
+  | unit                                           -- `None`
 deriving DecidableEq, Repr
 
 def outObj : Except ErrKind Obj → Except ErrKind Out
   | .ok o => .ok (.obj o)
   | .error e => .error e
+
+/-- `CreateCopy(values, unit, category, **extra)` -/
+def createCopyKw (db : Db) (o : Obj) (values : Option ValArg) (unit category : Option Sym) :
+    ExtraKw → Except ErrKind Obj
+  | .dimension => .error .type
+  | .value => .error .type
+  | .unitDatabase => createCopy db o values unit category
+
+/-- the public `FixedArray.CheckValues(values, dimension=None)`: without the keyword it is `self.dimension`
+the length is compared with -/
+def checkValuesPublic (o : Obj) (values : ValArg) (dimension : Option Int) : Except ErrKind Unit :=
+  match checkValues values (dimension.getD o.st.dim) with
+  | .error e => .error e
+  | .ok _ => .ok ()
+
+/-- `FixedArray.__eq__`: a FixedArray with equal values (as tuples: the container does not count), an equal
+quantity and an equal dimension -/
+def fixedEq (a b : FixedArr) : Bool :=
+  a.vals.xs == b.vals.xs && a.q == b.q && a.dim == b.dim
+
+/-- `unit or first_scalar.unit`: `None` and the empty string give way -/
+def orElse (x : Option Sym) (d : Sym) : Sym :=
+  match x with
+  | none => d
+  | some s => if s != 0 then s else d
+
+/-- `cls.FromScalars(scalars, unit=…, category=…)` on a FixedArray class.  The method is inherited from
+`Array` and ends in `cls(values=…, unit=…, category=…)` (or `cls.CreateEmptyArray()`), i.e. in a call of
+`FixedArray.__init__` / `FixedArray.CreateEmptyArray` WITHOUT their required `dimension`: `TypeError`,
+after the values have been read in the chosen unit (which may fail first). -/
+def fromScalars (db : Db) (_cls : ClsAttr) (scalars : List Scalar) (unit category : Option Sym) :
+    Except ErrKind Obj :=
+  match scalars with
+  | [] =>
+    match unit, category with
+    | none, none => .error .type
+    | some u, none =>
+      match getDefaultCategory db u with
+      | .error e => .error e
+      | .ok _ => .error .type
+    | none, some _ => .error .type
+    | some _, some _ => .error .assertion          -- `assert unit is None`
+  | first :: rest =>
+    match mapE (fun s => s.getValue db (some (orElse unit first.q.unit))) (first :: rest) with
+    | .error e => .error e
+    | .ok _ => .error .type
 
 /-- one operation on a source object; `store` is consulted only for the other operand -/
 def runOp (db : Db) (F : OpFunc) (store : List Obj) (src : Obj) : Op → Except ErrKind Out
@@ -700,6 +835,26 @@ def runOp (db : Db) (F : OpFunc) (store : List Obj) (src : Obj) : Op → Except 
     | .ok s => .ok (.scalar s)
     | .error e => .error e
   | .assign _ => .error .other                     -- AttributeError: property without a setter
+  | .createCopyKw values unit category extra => outObj (createCopyKw db src values unit category extra)
+  | .len => .ok (.int src.st.vals.xs.length)
+  | .iter => .ok (.vals ⟨.list, src.st.vals.xs⟩)
+  | .getItem index =>
+    match pyIndex src.st.vals.xs index with
+    | .ok x => .ok (.num x)
+    | .error e => .error e
+  | .getSlice s =>
+    match pySlice src.st.vals.xs s with
+    | .ok xs => .ok (.vals ⟨src.st.vals.kind, xs⟩)
+    | .error e => .error e
+  | .checkValues values dimension =>
+    match checkValuesPublic src values dimension with
+    | .ok _ => .ok .unit
+    | .error e => .error e
+  | .eq (.store idx) =>
+    match store[idx]? with
+    | none => .error .index
+    | some b => .ok (.bool (fixedEq src.st b.st))
+  | .eq .foreign => .ok (.bool false)
 
 def runCmd (db : Db) (F : OpFunc) (store : List Obj) : Cmd → Except ErrKind Out
   | .make r => outObj (runRoute db r)
@@ -707,6 +862,7 @@ def runCmd (db : Db) (F : OpFunc) (store : List Obj) : Cmd → Except ErrKind Ou
     match store[src]? with
     | none => .error .index
     | some s => runOp db F store s o
+  | .fromScalars cls scalars unit category => outObj (fromScalars db cls scalars unit category)
 
 /-- every array obtained is appended to the store; nothing else ever changes it -/
 def push (store : List Obj) : Except ErrKind Out → List Obj
@@ -797,5 +953,117 @@ def Curve.after (c : Curve) (s : Setter) : Curve :=
 def Curve.runSetters (c : Curve) : List Setter → Curve
   | [] => c
   | s :: ss => (c.after s).runSetters ss
+
+/-! ### reading a Curve: `curve[i]`, `curve[a:b:c]`, `GetLength()`, `repr(curve)` -/
+
+/-- an element of the outer container of `array.GetValues()`: a number, or a point (a tuple / a row of a
+2-D ndarray) -/
+inductive Elem
+  | num (x : Rat)
+  | point (xs : List Rat)
+deriving DecidableEq, Repr
+
+/-- what an array shows to a Curve that reads it: the container `GetValues()` returns and its unit -/
+structure ArrData where
+  kind : Kind
+  elems : List Elem
+  unit : Sym
+deriving DecidableEq, Repr
+
+/-- the arrays behind the references a Curve holds -/
+abbrev Content := ArrRef → ArrData
+
+/-- `Curve.__getitem__(index)` for an `int`: `d = self.GetDomain().GetValues()[index]`, then
+`i = self.GetImage().GetValues()[index]`, returned as `(d, i)` — the DOMAIN element first -/
+def Curve.getItem (h : Content) (c : Curve) (i : Int) : Except ErrKind (Elem × Elem) :=
+  match pyIndex (h c.domain).elems i with
+  | .error e => .error e
+  | .ok d =>
+    match pyIndex (h c.image).elems i with
+    | .error e => .error e
+    | .ok im => .ok (d, im)
+
+/-- `Curve.__getitem__(slice)`: the two containers are sliced on their own (a list gives a list, a tuple a
+tuple, an ndarray an ndarray); no Curve is built -/
+def Curve.getSlice (h : Content) (c : Curve) (s : PySlice) :
+    Except ErrKind ((Kind × List Elem) × (Kind × List Elem)) :=
+  match pySlice (h c.domain).elems s with
+  | .error e => .error e
+  | .ok d =>
+    match pySlice (h c.image).elems s with
+    | .error e => .error e
+    | .ok im => .ok (((h c.domain).kind, d), ((h c.image).kind, im))
+
+/-- `Curve.GetLength()`: `len(self._image.GetValues())` -/
+def Curve.length (c : Curve) : Nat := c.image.len
+
+/-- what `repr(curve)` is made of: `Curve(<image.unit>, <domain.unit>)[(x, y) (x, y) …]` -/
+structure CurveRepr where
+  imageUnit : Sym
+  domainUnit : Sym
+  items : List (Elem × Elem)
+  ellipsis : Bool
+deriving DecidableEq, Repr
+
+/-- the loop of `Curve.__repr__`: `for i, (x, y) in enumerate(zip(image, domain))`: an index above 20
+appends the ellipsis and stops -/
+def reprLoop : Nat → List (Elem × Elem) → List (Elem × Elem) × Bool
+  | _, [] => ([], false)
+  | i, p :: rest =>
+    if 20 < i then ([], true)
+    else ((p :: (reprLoop (i + 1) rest).1), (reprLoop (i + 1) rest).2)
+
+/-- `Curve.__repr__`: the pairs are `(image[k], domain[k])` — the IMAGE element first, the other way
+round than `curve[k]` -/
+def Curve.repr (h : Content) (c : Curve) : CurveRepr :=
+  let r := reprLoop 0 ((h c.image).elems.zip (h c.domain).elems)
+  ⟨(h c.image).unit, (h c.domain).unit, r.1, r.2⟩
+
+/-- everything a caller can do with a Curve -/
+inductive CurveOp
+  | set (s : Setter)
+  | getItem (i : Int)
+  | getSlice (s : PySlice)
+  | length
+  | repr
+deriving DecidableEq, Repr
+
+inductive CurveOut
+  | done
+  | item (d im : Elem)
+  | slices (d im : Kind × List Elem)
+  | length (n : Nat)
+  | repr (r : CurveRepr)
+deriving DecidableEq, Repr
+
+/-- the value (or exception) of one call -/
+def Curve.answer (h : Content) (c : Curve) : CurveOp → Except ErrKind CurveOut
+  | .set s =>
+    match c.apply s with
+    | .ok _ => .ok .done
+    | .error e => .error e
+  | .getItem i =>
+    match c.getItem h i with
+    | .ok (d, im) => .ok (.item d im)
+    | .error e => .error e
+  | .getSlice s =>
+    match c.getSlice h s with
+    | .ok (d, im) => .ok (.slices d im)
+    | .error e => .error e
+  | .length => .ok (.length c.length)
+  | .repr => .ok (.repr (c.repr h))
+
+/-- the curve after one call: only an accepted setter changes it -/
+def Curve.next (c : Curve) : CurveOp → Curve
+  | .set s => c.after s
+  | _ => c
+
+def Curve.runOps (c : Curve) : List CurveOp → Curve
+  | [] => c
+  | o :: os => (c.next o).runOps os
+
+def Curve.answers (h : Content) (c : Curve) : List CurveOp → List (Except ErrKind CurveOut)
+  | [] => []
+  | o :: os => c.answer h o :: (c.next o).answers h os
 
 end Barril.Fixed
